@@ -95,6 +95,10 @@ func (w *world) writer(id, nops int) {
 		if !c.S.PlanP(200) {
 			val = (id+1)*100 + i + 1
 		}
+		if w.mod != 0 && c.S.PlanP(500) {
+			// with the custom equality some non-zero values are "equal" to the zero value or to each other
+			val = c.S.Plan(4)*w.mod + c.S.Plan(3)
+		}
 		if c.S.PlanP(600) {
 			c.Descf("writer %d: SetValue(%d)", id, val)
 			wr := w.hist.Begin(c, val)
